@@ -3,7 +3,7 @@
    OCaml's own; N, positive, nat, ascii, string, comparison stay Coq datatypes. *)
 Require Extraction.
 Require ExtrOcamlBasic.
-From RC Require Import Base.Res Base.Wire Model.Enums Gen.EnumTables Gen.Merge Model.Open Model.Negotiate Gen.CmpChain Model.Select Model.Nlri Model.NlriOrd Model.AsPath Gen.AttrRules Model.Attr Model.Update Gen.BuilderConsts Model.Builder.
+From RC Require Import Base.Res Base.Wire Model.Enums Gen.EnumTables Gen.Merge Model.Open Model.Negotiate Gen.CmpChain Model.Select Model.Nlri Model.NlriOrd Model.AsPath Gen.AttrRules Model.Attr Model.Update Gen.BuilderConsts Model.Builder Model.PaMap.
 Extraction Language OCaml.
 Set Extraction KeepSingleton.
 Extraction "../ocaml/model.ml"
@@ -30,4 +30,7 @@ Extraction "../ocaml/model.ml"
   Builder.add_withdrawal Builder.set_nexthop Builder.empty_builder Builder.bsize Builder.from_update_message
   Builder.add_announcements_from_pdu Builder.add_withdrawals_from_pdu Builder.owned_all Builder.compose_all
   Builder.pamap_compose Builder.fam_code Update.attrs_walk Update.pamap_insert
+  PaMap.pm_set PaMap.pm_get PaMap.pm_remove PaMap.pm_add_attribute PaMap.pm_set_from_enum PaMap.pm_merge_upsert
+  PaMap.pm_remove_non_transitives PaMap.opa_get PaMap.ws_set_attr PaMap.ws_get_attr PaMap.ws_set_communities
+  PaMap.ws_get_communities PaMap.ws_from_pdu PaMap.comm_width Builder.typed_announcements
   EnumTables.all_enum_widths EnumTables.all_enum_names.
